@@ -26,6 +26,10 @@ PRJS = {
     'p0': gc.Projection(0, 0, 1, 6, -177),
     'p1': gc.Projection(200000, 3000000, 0.9999, 6, -177),
     'p2': gc.Projection(500000, 10000000, 0.9996, 3, -178.5),
+    # zone layouts that do NOT start at -180: Gauss-Krueger style (zone 1 at 3E, 3-degree zones) and a
+    # national-grid style (zone 1 at 111E, 4-degree zones)
+    'p3': gc.Projection(500000, 0, 1.0, 3, 3),
+    'p4': gc.Projection(400000, 5000000, 0.9998, 4, 111),
 }
 PRJ_PAR = {k: (float(v.falseeast), float(v.falsenorth), float(v.cmscale), float(v.zonewidth), float(v.initialcm))
            for k, v in PRJS.items()}
@@ -34,7 +38,14 @@ ISG_CM = {541: 139.0, 542: 141.0, 543: 143.0, 551: 145.0, 552: 147.0, 553: 149.0
           561: 151.0, 562: 153.0, 563: 155.0, 572: 159.0}
 # (ellipsoid, projection) configurations for the TM properties
 TM_CONFIGS = ([(e, 'utm') for e in E9] + [('ans', 'isg'), ('grs80', 'isg')] +
-              [('grs80', 'p0'), ('e64_400', 'p0'), ('grs80', 'p1'), ('e63_150', 'p1'), ('intl24', 'p2'), ('e635_275', 'p2')])
+              [('grs80', 'p0'), ('e64_400', 'p0'), ('grs80', 'p1'), ('e63_150', 'p1'), ('intl24', 'p2'), ('e635_275', 'p2'),
+               ('wgs84', 'p3'), ('ans', 'p4')])
+
+
+def n_zones(prj):
+    """number of zones of the layout that fit below +180 (at most 60, the API's limit)"""
+    fe, fn, k0, zw, icm = PRJ_PAR[prj]
+    return min(60, int((180.0 - (icm - 0.5 * zw)) / zw + 1e-9))
 
 
 def cm_of(prj, zone):
